@@ -19,6 +19,9 @@ def run(ctx):
     if ctx.quick():
         cfgd = cfgd.replace("MaxCalls = 2", "MaxCalls = 1").replace('{"ping", "open", "exec"}', '{"open", "exec"}')
         cfgd = cfgd.replace("PROPERTIES AllReturn CancelReturns HostDeathKillsAll", "PROPERTIES HostDeathKillsAll")
+    else:
+        # (with Ping the same properties are checked on the one-call model by C10's thorough tier)
+        cfgd = cfgd.replace('{"ping", "open", "exec"}', '{"open", "exec"}')
     r = ctx.tlc("ContainerProto", cfg=cfgd, workers=4, timeout=2400)
     ctx.tlc_ok("ContainerProto MC with crash in every state", r)
     # the end-of-stream path alone (no parent-death signal) must suffice
